@@ -354,13 +354,20 @@ fn dissect(patch: &[u8], long: bool) -> Value {
         return ev;
     }
     let (c, d) = (c as usize, d as usize);
+    let (c0, d0) = (c, d);
     ev["split"] = json!("ok");
     ev["zl"] = json!([c, d, patch.len() - 32 - c - d]);
     let blocks = (inflate_zlib(&patch[32..32 + c]), inflate_zlib(&patch[32 + c..32 + c + d]), inflate_zlib(&patch[32 + c + d..]));
     let (ctrl, diff, extra) = match blocks {
         (Ok(a), Ok(b), Ok(c)) => (a, b, c),
         (a, b, c) => {
-            ev["inflate"] = json!("error");
+            // the independent reader rejects a block.  If the library's zlib reads all three, the dispute is between
+            // two inflaters and nothing can be concluded from this record ("disputed" -> the check exits 2).
+            use cascette_formats::zbsdiff::decompress_zlib;
+            let lib_reads_all = [&patch[32..32 + c0], &patch[32 + c0..32 + c0 + d0], &patch[32 + c0 + d0..]]
+                .iter()
+                .all(|z| matches!(guarded(|| decompress_zlib(z).is_ok()), Ok(true)));
+            ev["inflate"] = json!(if lib_reads_all { "disputed" } else { "error" });
             ev["inflate_err"] = json!([a.err(), b.err(), c.err()]);
             return ev;
         }
